@@ -1,6 +1,7 @@
 package gen
 
 import (
+	"regexp"
 	"math"
 	"strings"
 
@@ -240,6 +241,22 @@ func GenValid(t *verifsim.Tape, d *spec.Design, a *spec.Attr, o GenOpts) any {
 				s := rx.Sample(t)
 				for i := 0; i < 6 && s == "" && (o.NonEmpty || o.AvoidZero); i++ {
 					s = rx.Sample(t)
+				}
+				if s == "" && (o.NonEmpty || o.AvoidZero) {
+					// the sampler kept choosing the empty alternative: take any fixed non-empty member
+					for k := uint64(1); k <= 24 && s == ""; k++ {
+						s = rx.Sample(verifsim.NewTape(k * 7919))
+					}
+					if s != "" {
+						return s
+					}
+					if re, err := regexp.Compile(v0.Pattern); err == nil {
+						for _, c := range []string{"a", "A", "0", "ab", "a1", "aaa", "abc1", "x-1"} {
+							if re.MatchString(c) {
+								return c
+							}
+						}
+					}
 				}
 				return s
 			}
